@@ -19,7 +19,8 @@ static void sb_ch(sb_t *s, char c) { sb_put(s, &c, 1); }
 #define NVAR 8
 static struct { char k[16]; char v[128]; int set; } vars[NVAR];
 static int dont_care;                      /* the input uses a construct whose value the statement leaves open */
-static int put_seen, store_uncertain, tmpdir_odd, len_unknown, quoted_word_seen;      /* a %put in an expansion that was cut at the limit may or may not have happened */
+static int put_seen, store_uncertain, tmpdir_odd, len_unknown, quoted_word_seen;
+static int rand_choice, random_calls, random_words, store_unknown;      /* a %put in an expansion that was cut at the limit may or may not have happened */
 static const char *ref_getvar(const char *k) { for (int i = 0; i < NVAR; i++) if (vars[i].set && !strcmp(vars[i].k, k)) return vars[i].v; return NULL; }
 static void ref_putvar(const char *k, const char *v)
 {
@@ -68,7 +69,17 @@ static void ref_builtin(const char *name, const char *rawargs, sb_t *o, int dept
     }
     else if (!strcasecmp(name, "version")) sb_put(o, "1.0", 3);
     else if (!strcasecmp(name, "appname")) sb_put(o, "simrun-1.0", 10);
-    else if (!strcasecmp(name, "random")) { n = words(a.b, w); if (n >= 1) { for (int i = 1; i < n; i++) if (strcmp(w[i], w[0])) dont_care = 1; sb_put(o, w[0], strlen(w[0])); } }
+    else if (!strcasecmp(name, "random")) {
+        /* one of its words: which one is the generator's business, so the executor tries every choice for the first call whose words
+           differ (a second such call in one expansion is not modelled) */
+        n = words(a.b, w);
+        if (n >= 1) {
+            int distinct = 0, pick = 0;
+            for (int i = 1; i < n; i++) if (strcmp(w[i], w[0])) distinct = 1;
+            if (distinct) { if (random_calls++) dont_care = 1; else { random_words = n; pick = rand_choice < n ? rand_choice : 0; } }
+            sb_put(o, w[pick], strlen(w[pick]));
+        }
+    }
     else if (!strcasecmp(name, "exec")) {
         if (tmpdir_odd) dont_care = 1;           /* what a command yields when its temporary file cannot be created is not specified */
         if (a.n > CONFIG_BUFF - 300) { dont_care = 1; len_unknown = 1; }      /* nor whether a command that (with its redirection) barely fits a line buffer is run at all */
@@ -84,6 +95,8 @@ static void ref_builtin(const char *name, const char *rawargs, sb_t *o, int dept
             long n = atol(c + 4);
             if (n > 100000) n = 100000;
             for (long i = 0; i < n; i++) sb_ch(o, 'x');
+        } else if (!strncmp(c, "true", 4) || !strncmp(c, "fail", 4)) {
+            /* commands without output */
         } else { dont_care = 1; len_unknown = 1; }
     } else dont_care = 1;
     free(a.b);
@@ -135,10 +148,10 @@ static void ref_expand(const char *s, sb_t *o, int depth)
             {
                 char name[200]; size_t k = 0; const char *q = p + 1; char close = 0; const char *v;
                 if (*q == '{') close = '}'; else if (*q == '(') close = ')';
-                if (close) { q++; while (*q && *q != close && k < 199) name[k++] = *q++; if (*q != close) { dont_care = 1; } else q++; }
+                if (close) { q++; while (*q && *q != close && k < 199) name[k++] = *q++; if (*q != close) { dont_care = 1; if (strcasestr(p, "%put")) store_unknown = 1; } else q++; }
                 else while ((isalnum((unsigned char)*q) || *q == '_') && k < 199) name[k++] = *q++;
                 name[k] = 0;
-                if (k > 126) dont_care = 1;
+                if (k > 126) { dont_care = 1; if (strcasestr(p, "%put")) store_unknown = 1; }      /* a name beyond the 127 characters the scanner takes: where it resumes is not modelled */
                 v = k ? getenv(name) : NULL;
                 if (!k && !close) dont_care = 1;                  /* a lone dollar sign */
                 if (v && *v) sb_put(o, v, strlen(v));
@@ -148,7 +161,7 @@ static void ref_expand(const char *s, sb_t *o, int depth)
             size_t l = 0; int k;
             if (in_single) dont_care = 1;                          /* the statement does not say whether calls are made inside single quotes */
             for (k = 0; k < 7; k++) { l = strlen(bi[k]); if (!strncasecmp(p + 1, bi[k], l) && (p[1 + l] == '(' || (p[1 + l] == ' ' && p[2 + l] == ')'))) break; }
-            if (k == 7) { dont_care = 1; sb_ch(o, c); continue; }   /* unknown %word */
+            if (k == 7) { dont_care = 1; len_unknown = 1; if (strcasestr(p, "%put")) store_unknown = 1; sb_ch(o, c); continue; }   /* unknown %word (how much of what follows it swallows is not said either) */
             {
                 const char *q = p + 1 + l, *start; int lvl = 1; char *args;
                 if (*q != '(') q++;
@@ -165,14 +178,14 @@ static void ref_expand(const char *s, sb_t *o, int depth)
             if (in_single) { sb_ch(o, c); continue; }
             {
                 const char *q = strchr(p + 1, '`'); char *cmd;
-                if (!q) { dont_care = 1; return; }
+                if (!q) { dont_care = 1; store_unknown = 1; return; }        /* never closed: whether the rest still runs as a command (with its %put calls) is not said */
                 cmd = strndup(p + 1, (size_t)(q - p - 1));
                 ref_builtin("exec", cmd, o, depth);
                 free(cmd);
                 p = q;
             }
         } else if (c == '"') { if (!in_single) in_double = !in_double; sb_ch(o, c); }
-        else if (c == '\'') { in_single = !in_single; sb_ch(o, c); }
+        else if (c == '\'') { if (in_double) dont_care = 1; in_single = !in_single; sb_ch(o, c); }      /* an apostrophe inside double quotes: whether it opens a single-quoted part is not said */
         else sb_ch(o, c);
     }
 }
@@ -202,7 +215,8 @@ static void one_pass(const plan_t *p, int pass)
     store_uncertain = 0;
     tmpdir_odd = plan_get(p, "tmpdir", 0) == 2 || plan_get(p, "tmpdir", 0) == 3;
     conf_env_setup(p);
-    sa_set_fill(pass ? FILL_FF : (int)plan_get(p, "alloc.fill", FILL_A5));
+    simenv_set_rand_seed(p->seed | 1);              /* both passes see the same rand() sequence */
+    { int f0 = (int)plan_get(p, "alloc.fill", FILL_A5); sa_set_fill(pass ? (f0 == FILL_FF ? FILL_A5 : FILL_FF) : f0); }      /* the second pass always runs on a different fill */
     spifconf_init_subsystem();
     for (int i = 0; i < p->nops; i++) {
         op_t *o = (op_t *)&p->ops[i];
@@ -221,13 +235,34 @@ static void one_pass(const plan_t *p, int pass)
             sb_t want = { 0 };
             memcpy(b, o->s, n); b[n] = 0;
             for (size_t q = 0; q < n; q++) if (!b[q]) b[q] = '.';
-            dont_care = 0; put_seen = 0; len_unknown = 0;
+            int input_has_high_bytes = 0;
+            for (size_t q = 0; q < n; q++) if ((unsigned char)b[q] >= 0x80) input_has_high_bytes = 1;
+            char *orig = strdup(b);
+            static unsigned char vars_before[sizeof(vars)];
+            memcpy(vars_before, vars, sizeof(vars));
+            dont_care = 0; put_seen = 0; len_unknown = 0; rand_choice = 0; random_calls = 0; random_words = 0; store_unknown = 0;
             sb_put(&want, "", 0);
             { char *in = strdup(b); ref_expand(in, &want, 0); free(in); }
             if (store_uncertain && strcasestr(b, "%get")) dont_care = 1;
+            if (store_unknown) store_uncertain = 1;
             if ((want.n >= CONFIG_BUFF - 1 || len_unknown) && put_seen) { store_uncertain = 1; probe_hit("put_in_an_expansion_cut_at_the_limit"); }
-            paint_stack(pass ? 0xFF : 0x00, 2048);
+            paint_stack(pass ? 0xFF : 0x81, 90000);          /* the callee's frame alone is a 20 kB buffer, nested calls add theirs */
             ret = (char *)spifconf_shell_expand((spif_charptr_t)b);
+            if (ret && !dont_care && random_calls == 1 && want.n < CONFIG_BUFF - 1 && (strlen(b) != want.n || memcmp(b, want.b, want.n))) {
+                /* %random with differing words: any of them is right */
+                for (int c = 1; c < random_words; c++) {
+                    memcpy(vars, vars_before, sizeof(vars));
+                    want.n = 0; dont_care = 0; put_seen = 0; len_unknown = 0; rand_choice = c; random_calls = 0;
+                    sb_put(&want, "", 0);
+                    { char *in = strdup(orig); ref_expand(in, &want, 0); free(in); }
+                    if (strlen(b) == want.n && !memcmp(b, want.b, want.n)) break;
+                }
+                rand_choice = 0;
+                probe_hit("random_picked_another_word");
+            }
+            free(orig);
+            /* leftover memory shows as bytes no input can have produced: the inputs are plain ASCII, the fills and paints are not */
+            if (ret) for (size_t q = 0; b[q] && q < CONFIG_BUFF; q++) if ((unsigned char)b[q] >= 0x80 && !input_has_high_bytes) sim_fail("MISMATCH(garbage-in-result)", "result byte %zu is 0x%02x: neither the input, the environment nor the variable store holds such a byte", q, (unsigned char)b[q]);
             if (ret) {
                 size_t rl;
                 if (ret != b) sim_fail("MISMATCH(expand-return)", "returned pointer is not the buffer that was passed in");
@@ -238,7 +273,7 @@ static void one_pass(const plan_t *p, int pass)
                     /* the text the rules define does not fit: where exactly it is cut is not specified, but what is
                        returned has to be a beginning of it, not something else */
                     probe_hit("result_hits_limit");
-                    if (!dont_care) {
+                    if (!dont_care && !random_calls) {
                         size_t d = 0;
                         while (d < rl && d < want.n && b[d] == want.b[d]) d++;
                         if (d != rl) sim_fail("MISMATCH(expand-cut)", "expanding \"%.40s...\" (result cut at the limit) gave %zu characters that are not a beginning of the text the rules define: first difference at %zu", (const char *)o->s, rl, d);
@@ -295,6 +330,12 @@ static void ga(const char *fmt, ...)
     va_end(ap);
     if (n > 0 && gvn + (size_t)n < sizeof(gv)) gvn += (size_t)n;
 }
+static const char *gen_key(rng_t *r)
+{
+    /* keys of different lengths and cases, one a beginning of another */
+    static const char *ks[] = { "k0", "k1", "k2", "k3", "k4", "k", "k10", "K1", "kk", "a", "z" };
+    return ks[rng_below(r, rng_chance(r, 1, 3) ? 11 : 5)];
+}
 static void gen_piece(rng_t *r, int depth, int inside_args)
 {
     int c = (int)rng_below(r, 100);
@@ -305,27 +346,38 @@ static void gen_piece(rng_t *r, int depth, int inside_args)
     else if (c < 46) { int f = (int)rng_below(r, 3); const char *e = envs[rng_below(r, 5)]; if (f == 0) ga("$%s", e); else if (f == 1) ga("${%s}", e); else ga("$(%s)", e); }
     else if (c < 52) ga("\\%c", "nrtbfave\\$~%'\"x "[rng_below(r, 17)]);
     else if (c < 57) ga("~");
-    else if (c < 62 && !inside_args) { ga("'"); for (int i = rng_range(r, 0, 3); i > 0; i--) { int q = (int)rng_below(r, 8); if (q == 0) ga("~"); else if (q == 1) ga("$V1"); else if (q == 2) ga("\\n"); else if (q == 3) ga("\\'"); else if (q == 4) ga("\\\\"); else if (q == 5) ga("\\%c", "x$~\"nt"[rng_below(r, 7)]); else ga("%s", plain[rng_below(r, 10)]); } ga("'"); }
-    else if (c < 66 && !inside_args) { ga("\""); for (int i = rng_range(r, 0, 3); i > 0; i--) { int q = (int)rng_below(r, 5); if (q == 0) ga("~"); else if (q == 1) ga("$V1"); else if (q == 2) ga("\\t"); else ga("%s", plain[rng_below(r, 10)]); } ga("\""); }
+    else if (c < 62 && !inside_args) { ga("'"); for (int i = rng_range(r, 0, 3); i > 0; i--) { int q = (int)rng_below(r, 8); if (q == 0) ga("~"); else if (q == 1) ga("$V1"); else if (q == 2) ga("\\n"); else if (q == 3) ga("\\'"); else if (q == 4) ga("\\\\"); else if (q == 5) ga("\\%c", "x$~\"nt"[rng_below(r, 7)]); else if (q == 6 && rng_chance(r, 1, 2)) ga("say \"hi"); else ga("%s", plain[rng_below(r, 10)]); } ga("'"); }
+    else if (c < 66 && !inside_args) { ga("\""); for (int i = rng_range(r, 0, 3); i > 0; i--) { int q = (int)rng_below(r, 5); if (q == 0) ga("~"); else if (q == 1) ga("$V1"); else if (q == 2) ga("\\t"); else if (q == 3 && rng_chance(r, 1, 3)) ga("it's"); else ga("%s", plain[rng_below(r, 10)]); } ga("\""); }
+    else if (c < 67 && !inside_args) ga(rng_chance(r, 1, 2) ? "don't $V1 ~" : "a \"lone quote $V1 ~");         /* a quote that is never closed */
     else if (c < 72) {
         if (rng_chance(r, 1, 5)) { static const char *qv[] = { "''", "\"\"", "'two words'", "\"d q\"", "'$V1'", "'~'", "' '" }; ga("%%put(k%u %s)", rng_below(r, 4), qv[rng_below(r, 7)]); }     /* quoted values, the empty one included */
-        else ga("%%put(k%u %s%u)", rng_below(r, 4), rng_chance(r, 1, 4) ? "$V1" : "v", rng_below(r, 10));
+        else if (rng_chance(r, 1, 10)) { static const char *odd[] = { "%%put()", "%%put(k1)", "%%put(k1 $EMPTY)", "%%put($NOSUCH v)" }; ga(odd[rng_below(r, 4)]); }      /* too few words once expanded */
+        else ga("%%put(%s %s%u)", gen_key(r), rng_chance(r, 1, 4) ? "$V1" : "v", rng_below(r, 10));
     }
-    else if (c < 80) { if (rng_chance(r, 1, 3)) ga("%%get(k%u d%u)", rng_below(r, 5), rng_below(r, 10)); else if (rng_chance(r, 1, 6)) ga("%%get(k%u 'a default')", rng_below(r, 5)); else ga("%%get(k%u)", rng_below(r, 5)); }
+    else if (c < 80) {
+        if (rng_chance(r, 1, 10)) { static const char *odd[] = { "%%get()", "%%get($NOSUCH)", "%%get( )", "%%get($EMPTY d)" }; ga(odd[rng_below(r, 4)]); }                    /* nothing to look up */
+        else if (rng_chance(r, 1, 3)) ga("%%get(%s d%u)", gen_key(r), rng_below(r, 10)); else if (rng_chance(r, 1, 6)) ga("%%get(%s 'a default')", gen_key(r)); else ga("%%get(%s)", gen_key(r));
+    }
     else if (c < 83) ga(rng_chance(r, 1, 2) ? "%%version()" : "%%appname()");
-    else if (c < 86) { static const char *rw[] = { "abc", "x", "a=b" }; const char *w = rw[rng_below(r, 3)]; ga("%%random(%s %s %s)", w, w, w); }
+    else if (c < 86) {
+        static const char *rw[] = { "abc", "x", "a=b" }; const char *w = rw[rng_below(r, 3)];
+        if (rng_chance(r, 1, 2)) ga("%%random(%s %s %s)", w, w, w);
+        else if (rng_chance(r, 1, 8)) ga("%%random()");
+        else ga("%%random(one two%s)", rng_chance(r, 1, 2) ? " three" : "");             /* differing words: any of them */
+    }
     else if (c < 90 && depth < 3) { ga("%%get(k%u ", rng_below(r, 5)); gen_piece(r, depth + 1, 1); ga(")"); }
     else if (c < 92 && depth < 3) { ga("%%put(k%u ", rng_below(r, 4)); if (rng_chance(r, 1, 2)) ga("%%get(k%u z)", rng_below(r, 5)); else ga("w%u", rng_below(r, 9)); ga(")"); }
     else if (c < 94) {
         if (rng_chance(r, 1, 6)) { static const int bl[] = { 1, 100, 4096, 20470, 20478, 20479, 20480, 20481, 30000 }; ga("%%exec(big %d)", bl[rng_below(r, 9)]); }    /* a command with a lot of output */
         else if (rng_chance(r, 1, 8)) { int n = rng_range(r, 120, 140); ga(rng_chance(r, 1, 2) ? "${" : "$"); for (int i = 0; i < n; i++) ga("N"); ga("} x"); }       /* a very long variable name */
+        else if (rng_chance(r, 1, 6)) { static const char *quiet[] = { "%%exec(big 0)", "%%exec(echo )", "%%exec(true)", "%%exec(fail)", "`true`" }; ga(quiet[rng_below(r, 5)]); }     /* commands without output */
         else ga("%%exec(echo  out  put%u )", rng_below(r, 9));
     }
     else if (c < 95) ga("`echo bq%u`", rng_below(r, 9));
     else if (c < 96) ga("%%nosuch(x)");
-    else if (c < 97) ga("${V1");
-    else if (c < 98) ga("%%get(");
-    else if (c < 99) ga("%%dirscan(/cfg/d)");
+    else if (c < 97) { static const char *open_[] = { "${V1", "$(V1", "${", "$(", "${}", "$()", "`echo never closed" }; ga(open_[rng_below(r, 7)]); }
+    else if (c < 98) ga(rng_chance(r, 1, 2) ? "%%get(" : "%%");
+    else if (c < 99) { static const char *ds[] = { "%%dirscan(/cfg/d)", "%%dirscan(/cfg/d)", "%%dirscan(/cfg/nodir)", "%%dirscan(/cfg/d/one)", "%%dirscan(/cfg/d/dir)" }; ga(ds[rng_below(r, 5)]); }
     else ga("$");
 }
 static int bigdir;
@@ -373,6 +425,15 @@ static void gen_c10(plan_t *p, rng_t *r)
         if (rng_chance(r, 1, 15)) ga("\\");
         o = plan_op(p, 0, "expand", 0);
         op_str(o, gv, gvn);
+        if (rng_chance(r, 1, 8)) {
+            /* the environment changes between two expansions; values that look like something to expand must be inserted as they are */
+            static const char *names[] = { "V1", "HOME", "EMPTY", "NOSUCH" };
+            static const char *vals[] = { "~", "$V1", "it's", "say \"x", "a\\nb", "%get(k0)", "/", "new value", "" };
+            const char *v = vals[rng_below(r, 9)];
+            o = plan_op(p, 0, "env", 1, (long)rng_chance(r, 1, 5));
+            { const char *nm = names[rng_below(r, 4)]; op_str(o, nm, strlen(nm)); }
+            op_str2(o, v, strlen(v));
+        }
     }
 }
 
